@@ -70,6 +70,8 @@ Judge(ev) ==
             ELSE IF MemberOK(ev) THEN "ok" ELSE "member-" \o ev.s
       [] ev.op = "typedef" -> IF ev.name \in DOMAIN Typedefs /\ TypedefOK(ev) THEN "ok" ELSE "typedef-period"
       [] ev.op = "period" -> IF ev.num = W(Periods[ev.i][1]) /\ ev.den = W(Periods[ev.i][2]) THEN "ok" ELSE "harness-period-table"
+      \* a sanitizer / hardware trap inside a call that TLC selected as in-domain (recorded by tools/pipes/duration.py)
+      [] ev.op = "trap" -> "trap"
       [] OTHER -> "harness-unknown-op"
 
 Expected(ev) ==
